@@ -21,8 +21,13 @@ func genC22(r *Rand, idx int, tier string) Case {
 	cfg := genCfg(r)
 	cfg.MaxHand = 0
 	cfg.Tsize = PickInt(r, 16, 64, 65536)
+	// the documented Async export option must not weaken what WRITE / COMMIT replies promise
+	cfg.Async = r.Bool()
 	s := NewSession(cfg, nil)
 	s.TrackCrash = true
+	if cfg.Async {
+		s.Tags["async-export"]++
+	}
 	root := nfsx.Cred{}
 	s.Do(0, root, &nfsx.Req{Proc: "MNT", Name: []byte("/")})
 	var fh []uint64
@@ -39,7 +44,8 @@ func genC22(r *Rand, idx int, tier string) Case {
 			cnt := PickInt(r, 0, 1, 3, 8, 16)
 			s.Do(pickAdv(r), root, &nfsx.Req{Proc: "WRITE", H: h, Off: PickU64(r, 0, 0, 2, 5, 10, 20), Cnt: uint32(cnt), Stable: uint32(r.Intn(3)), Data: randData(r, cnt)})
 		case x < 62:
-			s.Do(0, root, &nfsx.Req{Proc: "COMMIT", H: h})
+			// count 0 = "to the end of the file" (what clients send); sometimes an explicit range
+			s.Do(0, root, &nfsx.Req{Proc: "COMMIT", H: h, Off: PickU64(r, 0, 0, 0, 2), Cnt: uint32(PickInt(r, 0, 0, 0, 8, 64))})
 		case x < 74:
 			s.Do(0, root, &nfsx.Req{Proc: "SETATTR", H: h, Sa: nfsx.Sattr{Size: u64p(PickU64(r, 0, 3, 12, 30))}})
 		case x < 82:
